@@ -307,3 +307,12 @@ fn rc_step_k4() {
 fn rc_step_k5() {
     step::<5>()
 }
+
+// ---- deliberately false twin (thorough tier) ---------------------------------------------------------------------------
+#[kani::proof]
+#[kani::unwind(8)]
+#[kani::stub(alloc::fmt::format, fmt_stub)]
+fn twin_rc_false() {
+    step::<2>();
+    assert!(false, "false twin: this assertion must be reported as violated");
+}
